@@ -117,25 +117,31 @@ class _InMemoryFeedback(Feedback):
            related_links: Optional[Dict[str, str]] = None) -> None:
     """Marks current tuning trial as done, and export final object."""
     del related_links
-    if self._trial.status == 'PENDING':
+    # Only one of the co-workers holding this trial may finish it.
+    with self._study._lock:  # pylint: disable=protected-access
+      if self._trial.status != 'PENDING':
+        return
       if not self._trial.measurements:
         raise ValueError(
             f'At least one measurement should be added for trial {self.id}.')
       self._trial.status = 'COMPLETED'
-      self._trial.final_measurement = self._trial.measurements[-1]
-      self._feedback_fn(self.dna, self._trial)
-      self._trial.metadata.update(metadata or {})
-      self._study._complete_trial(self._trial)  # pylint: disable=protected-access
+    self._trial.final_measurement = self._trial.measurements[-1]
+    self._feedback_fn(self.dna, self._trial)
+    self._trial.metadata.update(metadata or {})
+    self._study._complete_trial(self._trial)  # pylint: disable=protected-access
 
   def skip(self, reason: Optional[str] = None) -> None:
     """Skips current trial without providing feedback to the controller."""
     del reason
-    if self._trial.status == 'PENDING':
+    # Only one of the co-workers holding this trial may finish it.
+    with self._study._lock:  # pylint: disable=protected-access
+      if self._trial.status != 'PENDING':
+        return
       self._trial.status = 'COMPLETED'
-      self._trial.infeasible = True
-      self._trial.final_measurement = Measurement(
-          reward=0.0, step=0, elapse_secs=0.0)
-      self._study._complete_trial(self._trial)  # pylint: disable=protected-access
+    self._trial.infeasible = True
+    self._trial.final_measurement = Measurement(
+        reward=0.0, step=0, elapse_secs=0.0)
+    self._study._complete_trial(self._trial)  # pylint: disable=protected-access
 
   def should_stop_early(self) -> bool:
     """Tells whether current trial should be stopped early.
